@@ -36,13 +36,17 @@ fn main() {
     let header = format!("package {};\n", pool["package"].as_str().unwrap());
     // the packages a document may refer to: the library and the WIT packages of the pool
     let mut pkg_bytes: Vec<(String, Vec<u8>)> = lib.pkgs.values().map(|p| (p.name.clone(), p.bytes.clone())).collect();
+    let every: usize = arg("--every", "1").parse().unwrap();
+    let mut all_pkgs: Vec<(String, Option<semver::Version>, Vec<u8>)> = pkg_bytes.iter().map(|(n, b)| (n.clone(), None, b.clone())).collect();
     for (name, p) in pool["wit_packages"].as_object().unwrap() {
-        if !p["version"].is_null() {
-            continue; // versioned WIT packages are only referred to by C11's target worlds
-        }
         let mut resolve = wit_parser::Resolve::new();
         let id = resolve.push_str(format!("{name}.wit"), p["text"].as_str().unwrap()).expect("wit package parses");
-        pkg_bytes.push((name.clone(), wit_component::encode(&resolve, id).expect("wit package encodes")));
+        let bytes = wit_component::encode(&resolve, id).expect("wit package encodes");
+        all_pkgs.push((name.clone(), p["version"].as_str().map(|v| semver::Version::parse(v).unwrap()), bytes.clone()));
+        if !p["version"].is_null() {
+            continue; // versioned WIT packages are only referred to by target worlds
+        }
+        pkg_bytes.push((name.clone(), bytes));
     }
     let so = std::io::stdout();
     let mut so = so.lock();
@@ -78,6 +82,58 @@ fn main() {
             }
             Ok(Ok(d)) => d,
         };
+        if prop == "C16" {
+            // reproducibility of the front end: the same document resolved (and encoded) repeatedly,
+            // every run with freshly keyed hash maps, gives the same diagnostic or the same bytes;
+            // one digest line per document for the comparison between processes
+            if programs % every != 0 {
+                continue;
+            }
+            let mut headers = vec![header.clone()];
+            for w in ["w1", "w3", "wv"] {
+                headers.push(format!("package {} targets {};\n", pool["package"].as_str().unwrap(), pool["worlds"][w]["path"].as_str().unwrap()));
+            }
+            for h in headers {
+                let text2 = text.replacen(&header, &h, 1);
+                let Ok(doc) = Document::parse(&text2) else { continue };
+                let run = || -> String {
+                    let mut m: IndexMap<BorrowedPackageKey, Vec<u8>> = IndexMap::new();
+                    for (name, version, bytes) in &all_pkgs {
+                        m.insert(BorrowedPackageKey::from_name_and_version(name, version.as_ref()), bytes.clone());
+                    }
+                    match guarded(|| doc.resolve(m)) {
+                        Err(p) => format!("panic: {p}"),
+                        Ok(Err(e)) => {
+                            use miette::Diagnostic;
+                            let labels: Vec<String> = e.labels().map(|l| l.map(|x| format!("{}+{}:{}", x.offset(), x.len(), x.label().unwrap_or(""))).collect()).unwrap_or_default();
+                            format!("error: {e} {labels:?}")
+                        }
+                        Ok(Ok(r)) => {
+                            let mut parts = Vec::new();
+                            for dc in [true, false] {
+                                match guarded(|| r.encode(EncodeOptions { define_components: dc, validate: false, processor: None })) {
+                                    Err(p) => parts.push(format!("panic: {p}")),
+                                    Ok(Err(e)) => parts.push(format!("encode error: {e}")),
+                                    Ok(Ok(b)) => parts.push(wac_verif_harness::util::sha256_hex(&b)),
+                                }
+                            }
+                            parts.join("/")
+                        }
+                    }
+                };
+                let first = run();
+                discovery_checks += 1;
+                for k in 0..2 {
+                    let again = run();
+                    if again != first {
+                        emit(&mut so, "nondet", format!("run {} of the same document in one process gives `{}`, the first gave `{}`", k + 2, &again[..again.len().min(300)], &first[..first.len().min(300)]));
+                        break;
+                    }
+                }
+                writeln!(so, "{}", json!({"digest": wac_verif_harness::util::sha256_hex(first.as_bytes()), "doc": wac_verif_harness::util::sha256_hex(text2.as_bytes())})).unwrap();
+            }
+            continue;
+        }
         if prop == "C17" {
             // package discovery finds every package resolution asks for: resolving with only the
             // discovered packages gives the same result as resolving with every package there is
